@@ -431,7 +431,7 @@ fn parse_new_reference_ext<'a>(
         return Err(nom::Err::Failure(NomError::new(input, ErrorKind::Tag)));
     };
     let (input, creation) = be_u8(input)?;
-    let mut ids = Vec::with_capacity(len as usize);
+    let mut ids = Vec::with_capacity(bounded_capacity(len as usize, input));
     let mut remaining = input;
     for _ in 0..len {
         let (rest, id) = be_u32(remaining)?;
@@ -656,7 +656,7 @@ fn parse_small_tuple<'a>(
         return Err(nom::Err::Failure(NomError::new(input, ErrorKind::TooLarge)));
     }
     let mut remaining = input;
-    let mut elements = Vec::with_capacity(arity as usize);
+    let mut elements = Vec::with_capacity(bounded_capacity(arity as usize, input));
 
     for _ in 0..arity {
         let (new_remaining, term) = parse_term(remaining, cache, depth + 1)?;
@@ -830,7 +830,7 @@ fn parse_newer_reference<'a>(
     let (input, creation) = be_u32(input)?;
 
     let mut remaining = input;
-    let mut ids = Vec::with_capacity(len as usize);
+    let mut ids = Vec::with_capacity(bounded_capacity(len as usize, input));
     for _ in 0..len {
         let (new_remaining, id) = be_u32(remaining)?;
         ids.push(id);
@@ -1111,7 +1111,7 @@ fn parse_small_tuple_borrowed<'a>(
         return Err(nom::Err::Failure(NomError::new(input, ErrorKind::TooLarge)));
     }
     let mut remaining = input;
-    let mut elements = Vec::with_capacity(arity as usize);
+    let mut elements = Vec::with_capacity(bounded_capacity(arity as usize, input));
 
     for i in 0..arity {
         ctx.push(PathSegment::TupleElement(i as usize));
@@ -1314,7 +1314,7 @@ fn parse_newer_reference_borrowed<'a>(
     let (input, creation) = be_u32(input)?;
 
     let mut remaining = input;
-    let mut ids = Vec::with_capacity(len as usize);
+    let mut ids = Vec::with_capacity(bounded_capacity(len as usize, input));
     for _ in 0..len {
         let (new_remaining, id) = be_u32(remaining)?;
         ids.push(id);
